@@ -283,6 +283,8 @@ def dump_state(obj):
 
 
 def read_str(r):
+    if not isinstance(r, (np.ndarray, np.generic)):
+        return 'other'
     a = np.asarray(r)
     if a.ndim == 0:
         return 'e:' + val_str(a.tolist(), a.dtype.kind)
@@ -395,8 +397,6 @@ def model_item(item, ids, alts=None):
         out['b'] = None if item.get('b') is None else ids(dec_label(item['b']))
     if op == 'replaceValues':
         out['kvs'] = [[k, model_operand(x)] for k, x in item['kvs']]
-    if op == 'getAttr':
-        out['op'] = 'getItem'   # same storage unless an instance attribute shadows the variable (reported by the oracle)
     return out
 
 
@@ -455,6 +455,8 @@ def run_case(case, observer=None):
     decl = own_names(obj)           # declaration order as the harness has seen it happen
     model_items, impl_out = [], []
     if observer:
+        if hasattr(observer, 'extra_size'):
+            observer.extra_size = extra_size      # Σ submodel.size, computed outside the object under test
         observer(obj, None, None, None, None, decl)
     for item in case['ops']:
         alts = (closest(item['name'], decl) if item['op'] == 'setAttr' else
